@@ -548,7 +548,11 @@ class V:
             raise Unsupported("denominator in a position that needs a plain term")
         return to_z3(n)
 
-    def sqrt(self, *, complex_branch: bool = False) -> "V":
+    def sqrt_unchecked(self) -> "V":
+        """Real sqrt whose radicand >= 0 has already been proven by the caller (no side obligation)."""
+        return self.sqrt(checked=False)
+
+    def sqrt(self, *, complex_branch: bool = False, checked: bool = True) -> "V":
         ctx = self.ctx
         q = self.as_fraction()
         if q is not None:
@@ -575,7 +579,8 @@ class V:
             if complex_branch:
                 ctx.assume(z3.And(v >= 0, v * v == z3.If(rz >= 0, rz, -rz)))
             else:
-                ctx.require("radicand >= 0", rz >= 0)
+                if checked:
+                    ctx.require("radicand >= 0", rz >= 0)
                 ctx.assume(z3.And(v >= 0, v * v == rz))
             hit = (v, rz)
             ctx.aux_sqrt[key] = hit
